@@ -733,11 +733,19 @@ def guarded_len(fn, name, node, k):
 
     def len_ok(test, positive):
         # positive: test true => long enough ; else test false => long enough
-        if isinstance(test, ast.Compare) and isinstance(test.left, ast.Call) and dotted(test.left.func) == 'len' \
-                and test.left.args and isinstance(test.left.args[0], ast.Name) and test.left.args[0].id == name \
-                and isinstance(test.comparators[0], ast.Constant) and isinstance(test.comparators[0].value, int):
-            c = test.comparators[0].value
-            op = type(test.ops[0])
+        if isinstance(test, ast.Compare) and len(test.ops) == 1:
+            left, right, op = test.left, test.comparators[0], type(test.ops[0])
+            if isinstance(left, ast.Constant) and not isinstance(right, ast.Constant):
+                left, right = right, left
+                op = {ast.Lt: ast.Gt, ast.Gt: ast.Lt, ast.LtE: ast.GtE, ast.GtE: ast.LtE}.get(op, op)
+            test_ = (left, op, right)
+        else:
+            test_ = None
+        if test_ is not None and isinstance(test_[0], ast.Call) and dotted(test_[0].func) == 'len' \
+                and test_[0].args and isinstance(test_[0].args[0], ast.Name) and test_[0].args[0].id == name \
+                and isinstance(test_[2], ast.Constant) and isinstance(test_[2].value, int):
+            c = test_[2].value
+            op = test_[1]
             if positive:
                 return (op is ast.GtE and c >= need) or (op is ast.Gt and c >= need - 1) or (op is ast.Eq and c >= need)
             return (op is ast.Lt and c >= need) or (op is ast.LtE and c >= need - 1) or (op is ast.NotEq and c >= need)
